@@ -7,6 +7,18 @@ ids = [json.loads(l)["id"] for l in open(os.path.join(ROOT, "properties.jsonl"))
 
 TECH = "deterministic whole-program simulation (std-facade substitution under a seeded scheduler) with fault injection; "
 CLAIMED = {
+    "C12": dict(
+        level="exploration", ref="DESIGN.md 5/C12",
+        text="Logs are produced by the real replication loop of a simulated primary (real rotation, real declutter retention, restarts, optional coarse clock) and every query of read_operations_since / last_op_time is compared with a linear scan of the same simulated files; sampling of logs and since values.",
+        note="the search routine itself is a pure function of file contents (input/history dominated); coarse-clock ties are recorded known findings",
+        technique=TECH + "differential check of the oplog query against a linear-scan reference over the simulated files",
+    ),
+    "C16": dict(
+        level="fault_enumeration", ref="DESIGN.md 5/C16",
+        text="Seeded histories of create-db / first writes / subset snapshots with restarts by kill, by SIGINT (real safe_shutdown) and by a kill armed at the k-th next mutating disk call; after each restart the surviving oplog must be empty (and last_op_time 0) or decode record by record through the restarted node's id maps to the names attributed at write time; id uniqueness is checked at every quiet point. Crash points are sampled per history.",
+        note="crash model = process kill; intent of each record is taken from the writing lifetime's own id maps; records of never-snapshotted databases are a recorded known finding",
+        technique=TECH + "crash/restart fault sequences with a decode-or-discard oracle over the surviving oplog",
+    ),
     "C06": dict(
         level="exploration", ref="DESIGN.md 5/C06",
         text="Seeded histories (2-40 steps) of writes/removes/increments/incremental and reclaiming snapshots/restarts over 1-2 databases; each restart (process kill after a completed snapshot + real start_db on the surviving simulated disk) is compared key by key, version by version and for id/strategy with the state captured when the snapshot completed; sampling.",
